@@ -66,6 +66,7 @@ def gen_cases(tier, seed):
             c.update({'wm': 'edge', 'tau': tau, 'gamma': 1.0, 'uneven': True, 'I0': [0], 'R0': [], 'I0_form': 'list', 'R0_form': 'list', 'tmin': 0,
                       'tmax': 'inf' if sim == 'Gillespie_SIR' else 3.0})
             c.pop('R0_explicit_empty', None)
+            c.pop('prehistory', None)
         out.append(c)
     nb = 6 if q else 32
     for b in range(nb):
